@@ -1353,6 +1353,11 @@ class FE:
                 elif d['op'] == 'shl' and isinstance(d['b'], VInt) and (1 << d['b'].v) == esz: cnt = s.V(d['t'], d['a'])
                 elif esz == 1: cnt = s.V(szt, szv)
                 if cnt is not None:
+                    cap = s.em.o.alloc_cap
+                    if cap:
+                        k = max(1, cap // esz)
+                        s.lines.append('__CPROVER_assert((uint64_t)%s <= %dULL, "modelling bound: variable-size allocation within --alloc-cap");' % (cnt, k))
+                        return 'sizeof(%s) * %d' % (ct, k)
                     return 'sizeof(%s) * (uint64_t)%s' % (ct, cnt)
         return None
 
@@ -1535,6 +1540,9 @@ class FE:
             tm = s.typed_alloc(ins) if r else None
             if tm is not None:
                 out.append('%s(uint8_t*)malloc(%s); __CPROVER_assume(%s != 0);' % (asg, tm, r)); return False
+            if em.o.alloc_cap and not isinstance(ins['args'][0][1], VInt):
+                out.append('__CPROVER_assert((uint64_t)%s <= %dULL, "modelling bound: variable-size allocation within --alloc-cap");' % (A[0], em.o.alloc_cap))
+                out.append('%s(uint8_t*)verif_new(%dULL);' % (asg, em.o.alloc_cap)); return False
             out.append('%s(uint8_t*)verif_new(%s);' % (asg, A[0])); return False
         if n in ('_ZdlPv', '_ZdaPv', '_ZdlPvm', '_ZdaPvm'):
             out.append('verif_delete((void*)%s);' % A[0]); return False
@@ -1678,6 +1686,12 @@ def emit_module(m, opts):
             if txt is None: txt = m.raw_globals.get(n, '')
             for r_ in refre.findall(txt):
                 if r_ not in keep: work.append(r_)
+    if keep is not None:
+        ch = True
+        while ch:   # typeinfo parents of kept exception types stay (catch clauses match through the hierarchy)
+            ch = False
+            for c_, p_ in EH_PARENTS.items():
+                if c_ in keep and p_ in m.globals and p_ not in keep: keep.add(p_); ch = True
     def kept(n): return keep is None or n in keep
     # function prototypes
     for n in m.forder:
@@ -1696,6 +1710,9 @@ def emit_module(m, opts):
         if f.decl and ENV_NOOP.match(nm):
             # binary-only libstdc++ environment functions whose effect is irrelevant (exception object ctors/dtors: only the type is compared)
             bodies.append(sig + '\n{ %s }\n' % ('' if isinstance(f.ret, TVoid) else 'return (%s)0;' % em.cty(f.ret) if isinstance(em.res(f.ret), (TInt, TPtr, TFloat)) else 'return (%s){0};' % em.cty(f.ret)))
+        if not f.decl and any(u in nm for u in opts.unreachable):
+            bodies.append(sig + '\n{ __CPROVER_assert(0, "modelling bound: function assumed unreachable was reached: %s"); __CPROVER_assume(0); %s }\n' % (nm[:60], '' if isinstance(f.ret, TVoid) else ('return (%s)0;' % em.cty(f.ret) if isinstance(em.res(f.ret), (TInt, TPtr, TFloat)) else 'return (%s){0};' % em.cty(f.ret))))
+            continue
         if not f.decl and not (opts.stub and nm in opts.stub):
             fe = FE(em, f)
             try:
@@ -1729,7 +1746,7 @@ def emit_module(m, opts):
     eh.append('  const void* t = verif_exc_type;')
     eh.append('  for (int i_ = 0; i_ < 4; ++i_) { if (t == ti) return 1;')
     for c, p_ in EH_PARENTS.items():
-        if c in m.globals and p_ in m.globals:
+        if c in m.globals and p_ in m.globals and kept(c) and kept(p_):
             eh.append('    if (t == (const void*)&%s) { t = (const void*)&%s; continue; }' % (em.gname(c), em.gname(p_)))
     eh.append('    break; }')
     eh.append('  return 0; }')
@@ -1751,7 +1768,8 @@ def main():
     ap.add_argument('input'); ap.add_argument('-o', '--output', default='-')
     ap.add_argument('--entry', action='append'); ap.add_argument('--stub', action='append')
     ap.add_argument('--gcc', action='store_true'); ap.add_argument('--conc', action='store_true'); ap.add_argument('--flex', action='store_true')
-    ap.add_argument('--no-typed-malloc', action='store_true')
+    ap.add_argument('--no-typed-malloc', action='store_true'); ap.add_argument('--alloc-cap', type=int, default=0)
+    ap.add_argument('--unreachable', action='append', default=[])
     ap.add_argument('--dispatch', action='append'); ap.add_argument('--dispatch-threshold', type=int, default=8)
     o = ap.parse_args()
     text = open(o.input).read()
